@@ -7,7 +7,8 @@ Decided (structural):
  R2 K2  every caller treats the P outcome as failure: in policy-compiler's main the P edge
         leads to ExitCode::FAILURE and cannot reach File::create / into_writer /
         ExitCode::SUCCESS, the other edge reaches them; validate is skipped only on the
-        `no_validate` edge. policy-runner: the P edge returns Err and cannot reach
+        `no_validate` edge, and every SUCCESS exit (the --stub-ffi one too) lies behind one of the
+        two. policy-runner: the P edge returns Err and cannot reach
         Machine::from_module.
  R3 K2  parse and compile errors return ExitCode::FAILURE and cannot reach the writer.
 Not decided: what validate()'s analyzers accept."""
@@ -140,6 +141,10 @@ def run(F, rep, tier):
                 rep.check(not (sinks & reach_wo), "main|writer-guarded", "K2 guarded-by",
                           "File::create/into_writer are reachable only through `validation passed` or `--no-validate`",
                           site=c.site())
+                rep.check(bool(succ) and not (succ & reach_wo), "main|success-guarded", "K2 guarded-by",
+                          "every ExitCode::SUCCESS exit of main (including --stub-ffi's) is reachable only through `validation passed` or `--no-validate`",
+                          "policy-compiler main can exit with ExitCode::SUCCESS on a path that neither passed validate() nor had --no-validate (e.g. an early "
+                          "`--stub-ffi` return placed before the validation): a policy that fails validation is reported as fine", c.site())
         else:
             errs = {s.bb for s in f.stmts() if s.rv_kind() == "agg" and s.rv[1].get("variant") == "Err" and s.place.local == 0}
             sinks = {x.bb for x in f.calls if x.is_("Machine::from_module")}
